@@ -110,6 +110,8 @@ impl<Error: Send + 'static> DecodeScheduler<Error> {
 	}
 
 	pub fn run(&mut self) -> Result<NextStep, Error> {
+		#[cfg(kira_verif)]
+		crate::verif::yield_point("decode_scheduler_run");
 		// if the sound was manually stopped, end the thread
 		if self.shared.state() == PlaybackState::Stopped {
 			return Ok(NextStep::End);
@@ -121,6 +123,8 @@ impl<Error: Send + 'static> DecodeScheduler<Error> {
 		}
 		// if the frame ringbuffer is full, sleep for a bit
 		if self.frame_producer.is_full() {
+			#[cfg(kira_verif)]
+			crate::verif::yield_point("decode_scheduler_full");
 			return Ok(NextStep::Wait);
 		}
 		// check for commands
